@@ -258,7 +258,7 @@ class SigmaBase64OffsetModifier(SigmaValueModifier[SigmaString, SigmaExpansion])
             [
                 SigmaString(
                     b64encode(i * b" " + bytes(val))[
-                        self.start_offsets[i] : self.end_offsets[(len(val) + i) % 3]
+                        self.start_offsets[i] : self.end_offsets[(len(bytes(val)) + i) % 3]
                     ].decode()
                 )
                 for i in range(3)
